@@ -108,8 +108,8 @@ def isKeyword (t : Tok) : Bool := keywordBeg < t.code && t.code < keywordEnd
 /-- The keyword tokens (`init()` fills the `keywords` map from this range). -/
 def keywords : List Tok := all.filter isKeyword
 
-/-- Spelling as bytes. -/
-def bytes (t : Tok) : Bs := t.str.toUTF8.toList
+/-- Spelling as bytes (every spelling is ASCII; `String.toList` reduces in the kernel). -/
+def bytes (t : Tok) : Bs := t.str.toList.map (fun c => UInt8.ofNat c.toNat)
 
 /-- `token.Lookup`. -/
 def lookup (ident : Bs) : Tok :=
